@@ -287,44 +287,25 @@ class SyndromeLookupDecoder(BaseBlockDecoder[LinearBlockCodeEncoder]):
         if L % self.code_length != 0:
             raise ValueError(f"Last dimension ({L}) must be divisible by code length ({self.code_length})")
 
-        # Handle 1D tensor input for single codeword
-        if not leading_dims:  # This is a 1D tensor (a single codeword)
-            # Add batch dimension for processing
-            batched_received = received.unsqueeze(0)
-
-            # Process directly without using apply_blockwise
-            batch_size = 1
-            decoded = torch.zeros(batch_size, self.code_dimension, dtype=received.dtype, device=received.device)
-            errors = torch.zeros_like(batched_received)
-
-            # Calculate syndrome
-            syndrome = self.encoder.calculate_syndrome(received)
-            syndrome_int = self._syndrome_to_int(syndrome)
-
-            # Look up error pattern
-            error_pattern = self._syndrome_table.get(syndrome_int, torch.zeros(self.code_length, dtype=torch.int))
-            errors[0] = error_pattern
-
-            # Correct errors
-            corrected = (received + error_pattern) % 2
-
-            # Extract message bits
-            decoded[0] = self.encoder.extract_message(corrected)
-
-            # Remove batch dimension for output
+        # Handle 1D tensor input (one or several codewords without leading dimensions)
+        if not leading_dims:
+            result = self.forward(received.unsqueeze(0), *args, **kwargs)
             if return_errors:
-                return decoded.squeeze(0), errors.squeeze(0)
-            return decoded.squeeze(0)
+                return result[0].squeeze(0), result[1].squeeze(0)
+            return result.squeeze(0)
 
         # For tensors with leading dimensions, process blockwise
         def decode_block(r_block):
-            batch_size = r_block.shape[0]
+            # r_block has shape (..., blocks, n): decode every codeword, whatever the leading dimensions
+            block_dims = r_block.shape[:-1]
+            words = r_block.reshape(-1, self.code_length)
+            batch_size = words.shape[0]
             decoded = torch.zeros(batch_size, self.code_dimension, dtype=received.dtype, device=received.device)
-            errors = torch.zeros_like(r_block)
+            errors = torch.zeros_like(words)
 
             for i in range(batch_size):
                 # Get the current received word
-                r = r_block[i]
+                r = words[i]
 
                 # Calculate syndrome
                 syndrome = self.encoder.calculate_syndrome(r)
@@ -340,28 +321,11 @@ class SyndromeLookupDecoder(BaseBlockDecoder[LinearBlockCodeEncoder]):
                 # Extract message bits
                 decoded[i] = self.encoder.extract_message(corrected)
 
+            decoded = decoded.reshape(*block_dims, self.code_dimension)
+            errors = errors.reshape(*block_dims, self.code_length)
             return (decoded, errors) if return_errors else decoded
 
         # Apply decoding blockwise
         result = apply_blockwise(received, self.code_length, decode_block)
-
-        # If we're returning errors and handling multi-block tensors
-        # apply_blockwise will return a tuple that we need to handle specially
-        if return_errors and L > self.code_length:
-            decoded_parts = []
-            error_parts = []
-
-            # Handle batch dimension cases
-            *_, blocks, _ = received.shape
-            for i in range(blocks):
-                decoded, errors = result[:, i]
-                decoded_parts.append(decoded)
-                error_parts.append(errors)
-
-            # Stack the parts along the appropriate dimension
-            decoded_tensor = torch.cat(decoded_parts, dim=-1)
-            error_tensor = torch.cat(error_parts, dim=-1)
-
-            return decoded_tensor, error_tensor
 
         return result
